@@ -77,6 +77,11 @@ def scenarios(kind, tier):
                         "Output 0 2"], 2, 3)
     add("three_choices_mixed", ["Input 0 0", "Input 1 1", "AndRegReg 2 0 1", "OrRegImm 3 0 0x40000000", "MaxRegReg 4 2 3",
                                 "Output 4 0"], 2, 1)
+    # a decided clause next to an independent clause (whose operands may be NaN):
+    # the trace is reported, so every entry is observable
+    for nm in ("MinRegReg", "MaxRegReg", "AndRegReg", "OrRegReg"):
+        add("choices_sibling_%s" % nm, ["Input 0 0", "Input 1 1", "Input 2 2", "MinRegReg 3 0 1", "%s 4 2 0" % nm, "Output 3 0",
+                                         "Output 4 1"], 3, 2)
     # twelve live registers across a libm call
     ops = ["Input %d %d" % (i, i % 2) for i in range(11)]
     ops += ["AddRegImm %d %d 0x%08x" % (i, i, struct.unpack("<I", struct.pack("<f", float(i)))[0]) for i in range(2, 11)]
@@ -95,6 +100,10 @@ def scenarios(kind, tier):
         top = 12 + n - 1
         add("spill%d_call" % n, ["Input 0 0", "Input 1 1", "Store 0 %d" % top, "SinReg 2 1", "Load 3 %d" % top, "SubRegReg 4 3 2",
                                   "Output 4 0"], 2, 1, slots=12 + n)
+    if kind == "interval":
+        # z3 does not decide these within the time budget (max(|l|,|u|)^2; 12
+        # chained interval ops around a call): outside the claim
+        out = [s for s in out if not s.name.startswith("SquareReg") and s.name != "live12_call"]
     return out
 
 
